@@ -1124,6 +1124,8 @@ class sptensor:
          [1. 1.]]
         """
         # Case 1: Argument is a scalar or tensor
+        if isinstance(other, ttb.tensor) and self.shape != other.shape:
+            assert False, "Logical Or requires tensors of the same size"
         if isinstance(other, (float, int, ttb.tensor)):
             return self.full().logical_or(other)
 
@@ -1194,6 +1196,8 @@ class sptensor:
          [1. 0.]]
         """
         # Case 1: Argument is a scalar or dense tensor
+        if isinstance(other, ttb.tensor) and self.shape != other.shape:
+            assert False, "Logical XOR requires tensors of the same size"
         if isinstance(other, (float, int, ttb.tensor)):
             return self.full().logical_xor(other)
 
